@@ -313,4 +313,56 @@ def repairIndex (readHeader : Nat → Option Nat → Nat → Option (List IndexB
     (readHeader r.1 r.2.1 r.2.2).map fun bl => { id := r.1, blobs := bl, size := none }
   st.out ++ (if newPacks.isEmpty then [] else [{ packs := newPacks, packsToDelete := [] }])
 
+/-! ### `repair_index(opts, dry_run)` (C08, round 3): the `dry_run` flag
+
+`repair_index` has ONE body for both modes; `dry_run` is tested at exactly two places:
+* `match (changed, dry_run)` in the loop over the index files: `(true, true)` only logs "would have modified index file",
+  `(true, false)` saves the new file (unless empty) and queues the old one in `indexes_remove`, `(false, _)` does nothing —
+  so in a dry run every index file STAYS (`repairFileD`), while `check_pack` still runs (its `packs_to_read` are read);
+* `if !dry_run { indexer.add_with(pack, false) }` after each successful header read: nothing reaches the indexer, whose
+  `finalize` then writes no file; `indexes_remove` is empty, so nothing is removed (`repairIndexD`).
+`repairIndexD false = repairIndex` (`Lemmas`: `repairIndexD_false`). -/
+
+def repairFileD (dry readAll : Bool) (st : RepairAcc) (f : IndexFile) : RepairAcc :=
+  let r := f.allPacks.foldl (checkOne readAll)
+    { remaining := st.remaining, toRead := st.toRead, newIndex := { packs := [], packsToDelete := [] }, changed := false }
+  { remaining := r.remaining, toRead := r.toRead
+    out := match r.changed, dry with
+      | true, true => st.out ++ [f]
+      | true, false =>
+        (if r.newIndex.packs.isEmpty && r.newIndex.packsToDelete.isEmpty then st.out else st.out ++ [r.newIndex])
+      | false, _ => st.out ++ [f] }
+
+def repairIndexD (dry : Bool) (readHeader : Nat → Option Nat → Nat → Option (List IndexBlob)) (store : List (Nat × Nat))
+    (files : List IndexFile) (readAll : Bool) : List IndexFile :=
+  let st := files.foldl (repairFileD dry readAll) { remaining := store, toRead := [], out := [] }
+  let reads := st.toRead ++ st.remaining.map (fun e => (e.1, none, e.2))
+  let newPacks : List IndexPack := reads.filterMap fun r =>
+    (readHeader r.1 r.2.1 r.2.2).bind fun bl => if dry then none else some { id := r.1, blobs := bl, size := none }
+  st.out ++ (if newPacks.isEmpty then [] else [{ packs := newPacks, packsToDelete := [] }])
+
+/-- the header reads `repair_index` performs (`checker.into_pack_to_read()`: the packs queued by `check_pack`, then every pack
+file no index file listed), as `(pack, size hint, pack size)` — the `dry_run` flag is a parameter to show it has no influence. -/
+def repairReadsD (dry : Bool) (store : List (Nat × Nat)) (files : List IndexFile) (readAll : Bool) : List (Nat × Option Nat × Nat) :=
+  let st := files.foldl (repairFileD dry readAll) { remaining := store, toRead := [], out := [] }
+  st.toRead ++ st.remaining.map (fun e => (e.1, none, e.2))
+
+/-! ### `index_checked_from_collector` (`Repository::to_indexed_checked`): the index healed in memory
+
+Per index file `collector.extend(checker.check_pack(index, false).0.packs)` — the kept UNMARKED listings (the `changed` flag and the
+marked listings are ignored); then every queued / never listed pack is read with `PackHeader::from_file` — here the first failing
+read fails the whole command (`?`), `repair_index` would leave the pack out — and added. -/
+
+def checkedFile (st : RepairAcc × List IndexPack) (f : IndexFile) : RepairAcc × List IndexPack :=
+  let r := f.allPacks.foldl (checkOne false)
+    { remaining := st.1.remaining, toRead := st.1.toRead, newIndex := { packs := [], packsToDelete := [] }, changed := false }
+  ({ remaining := r.remaining, toRead := r.toRead, out := [] }, st.2 ++ r.newIndex.packs)
+
+def checkedPacks (readHeader : Nat → Option Nat → Nat → Option (List IndexBlob)) (store : List (Nat × Nat))
+    (files : List IndexFile) : Option (List IndexPack) :=
+  let st := files.foldl checkedFile ({ remaining := store, toRead := [], out := [] }, [])
+  let reads := st.1.toRead ++ st.1.remaining.map (fun e => (e.1, none, e.2))
+  (reads.mapM fun r => (readHeader r.1 r.2.1 r.2.2).map fun bl => ({ id := r.1, blobs := bl, size := none } : IndexPack)).map
+    (st.2 ++ ·)
+
 end Rustic.Index
